@@ -1,39 +1,7 @@
 -------------------------------- MODULE Merge --------------------------------
-(* Merging of input files (input/merge.go): files are folded left to right, starting     *)
-(* from the default input.  For the same key a later file's scalar attributes override,  *)
-(* mappings are united key-wise with later values winning, non-empty arguments replace,  *)
-(* calls, tags and decorators are appended.                                              *)
-EXTENDS Config
-
-Later(a, b) == IF IsSet(b) THEN b ELSE a
-
-(* key/value sequences (imports, functions, fields): union by key, later value wins; the *)
-(* order of the result carries no meaning (the code sorts keys wherever it iterates)     *)
-Keys(kv) == {kv[i].n : i \in 1..Len(kv)}
-MergeKV(a, b) == SelectSeq(a, LAMBDA e : e.n \notin Keys(b)) \o b
-
-MergeFn(a, b) == [k \in (DOMAIN a) \cup (DOMAIN b) |-> IF k \in DOMAIN b THEN b[k] ELSE a[k]]
-
-MergeMeta(a, b) ==
-  [pkg |-> Later(a.pkg, b.pkg), ctype |-> Later(a.ctype, b.ctype), cctor |-> Later(a.cctor, b.cctor),
-   defmust |-> Later(a.defmust, b.defmust), imports |-> MergeKV(a.imports, b.imports),
-   functions |-> MergeKV(a.functions, b.functions)]
-
-MergeSvc(a, b) ==
-  [todo |-> Later(a.todo, b.todo), getter |-> Later(a.getter, b.getter), must |-> Later(a.must, b.must),
-   type |-> Later(a.type, b.type), value |-> Later(a.value, b.value), ctor |-> Later(a.ctor, b.ctor),
-   args |-> IF Len(b.args) > 0 THEN b.args ELSE a.args,
-   calls |-> a.calls \o b.calls, fields |-> MergeKV(a.fields, b.fields), tags |-> a.tags \o b.tags,
-   scope |-> Later(a.scope, b.scope)]
-
-MergeServices(a, b) ==
-  [s \in (DOMAIN a) \cup (DOMAIN b) |->
-     IF s \in DOMAIN a /\ s \in DOMAIN b THEN MergeSvc(a[s], b[s]) ELSE IF s \in DOMAIN b THEN b[s] ELSE a[s]]
-
-Merge(a, b) ==
-  [version |-> Later(a.version, b.version), meta |-> MergeMeta(a.meta, b.meta),
-   params |-> MergeFn(a.params, b.params), services |-> MergeServices(a.services, b.services),
-   decorators |-> a.decorators \o b.decorators]
+(* Folding of the input files with the merge step of MergeCore, and equality of          *)
+(* configurations up to the order of key/value sequences.                                *)
+EXTENDS MergeCore
 
 RECURSIVE MergeFrom(_, _, _)
 MergeFrom(acc, files, i) == IF i > Len(files) THEN acc ELSE MergeFrom(Merge(acc, files[i]), files, i + 1)
